@@ -23,6 +23,9 @@ func checkC11(c *Check, a *Anchors) {
 	freshElements(c, a, "fresh-copy-per-call")
 	c11FreshTask(c, a)
 	copierNeverAliases(c, a)
+	memoOnlySuccess(c, a)
+	templatePerString(c, a)
+	compiledFromDefinition(c, a, "compiled-from-definition")
 	c18FieldsClassified(c, a) // a new field of Executor / Compiler is state shared by every call: it must be reviewed (memo tables make a task depend on history)
 	noInPlaceMutationOfShared(c, a, "no-in-place-mutation")
 }
